@@ -46,6 +46,8 @@ MUST_HIT = [
     "rk:DYN-END-DOP-REF", "rk:SWITCH-KEY/DATA-OBJECT-PROP-REF", "rk:CASE/STRUCTURE-REF", "rk:CASE/STRUCTURE-SNREF",
     "rk:DEFAULT-CASE/STRUCTURE-REF", "rk:DEFAULT-CASE/STRUCTURE-SNREF", "rk:KEY-DOP-REF", "rk:TABLE-ROW/STRUCTURE-REF",
     "rk:TABLE-ROW/STRUCTURE-SNREF", "rk:TABLE-ROW/DATA-OBJECT-PROP-REF", "rk:TABLE-ROW/DATA-OBJECT-PROP-SNREF",
+    "rk:COMPANY-DATA-REF", "rk:TEAM-MEMBER-REF", "rk:DOC-REVISION/TEAM-MEMBER-REF", "via:import-over-sibling",
+    "sibling-id-reuse:own-company-data-without-docref",
     "rk:TABLE/TABLE-ROW-REF", "rk:PROTOCOL-SNREF", "included-row-snref-shadowed", "included-service-protocol-snref",
     "bad:protocol-not-applicable",
     "history", "history:remove", "history:restore", "history:rename", "history:replace", "history:refresh-raised",
@@ -157,6 +159,17 @@ def _bound(db, layer_ir, site):
     raw = dl.diag_layer_raw
     try:
         h = path[0]
+        if "admin" in path[:3] and (h == "admin" or path[2] == "admin"):
+            if h == "admin":
+                ad, rest = raw.admin_data, path[1:]
+            else:
+                holder = {"reqs": lambda: raw.requests[path[1]], "svcs": lambda: raw.diag_comms[path[1]],
+                          "dops": lambda: raw.diag_data_dictionary_spec.data_object_props[path[1]]}[h]()
+                ad, rest = holder.admin_data, path[3:]
+            if rest[0] == "cdi":
+                cdi = ad.company_doc_infos[rest[1]]
+                return cdi.company_data if rest[2] == "cd" else cdi.team_member
+            return ad.doc_revisions[rest[1]].team_member
         if h == "parent":
             return raw.parent_refs[path[1]].layer
         if h == "import":
@@ -333,6 +346,8 @@ def evaluate(case):
                 if s.get("sibling_reuse") and s["doc"] == "none" and s["via"] == "own":
                     # R2b: no DOCREF, the id is carried by the referring layer AND by a sibling layer
                     classes.add("sibling-id-reuse:own-object-without-docref")
+                    if s["rk"] in ("COMPANY-DATA-REF", "TEAM-MEMBER-REF", "DOC-REVISION/TEAM-MEMBER-REF"):
+                        classes.add("sibling-id-reuse:own-company-data-without-docref")
                     feats.add("sibling-reuse")
                 elif s.get("sibling_reuse") and s["doc"] == "LAYER":
                     classes.add("sibling-id-reuse:docref-to-layer")
@@ -396,7 +411,7 @@ def evaluate(case):
                 f"{s['rk']} at {s['layer']}/{'/'.join(map(str, s['path']))} is unresolvable ({s['why']}, "
                 f"ref={_site_ref(case, s)}) but the set loaded in strict mode; bound to {what}",
                 f"must-raise:{s['why']}:{s['rk']}", why=s["why"], rk=s["rk"], tag=s.get("tag"),
-                layer_type=layers[s["layer"]]["type"], bound=got, candidates=list(s["allowed"]),
+                layer_type=layers[s["layer"]]["type"], bound=got, candidates=list(s["allowed"]), note=note,
                 leak=_leak_explains(m, s, got), site_layer=s["layer"], site_path=s["path"]))
         return fails, classes, nontrivial
 
@@ -413,7 +428,7 @@ def evaluate(case):
                 f"{s['rk']} at {s['layer']}/{'/'.join(map(str, s['path']))} (ref={_site_ref(case, s)}) must name "
                 f"uid {s['allowed']} but is bound to {what}",
                 f"wrong-target:{s['rk']}:{s.get('doc')}:{s.get('via')}", rk=s["rk"], doc=s.get("doc"), via=s.get("via"),
-                expected=s["allowed"], bound=got, leak=_leak_explains(m, s, got)))
+                expected=s["allowed"], bound=got, leak=_leak_explains(m, s, got), site_path=s["path"], note=note))
         if s["rk"] == "TABLE-ROW-REF" and got in s["allowed"]:
             # TABLE-KEY given by TABLE-ROW-REF: its table is the table carrying that row
             try:
@@ -492,7 +507,8 @@ def _history(case, db, m0, classes, fail):
                         f"{where}: {s['rk']} at {s['layer']}/{'/'.join(map(str, s['path']))} has become unresolvable "
                         f"({s['why']}, ref={_site_ref(cur, s)}) but refresh() succeeded in strict mode; bound to uid:{got}"
                         + (" which is no longer part of the database" if stale else f" {note}"),
-                        f"history-must-raise:{op['op']}:{s['why']}:{s['rk']}", op=op["op"], why=s["why"], rk=s["rk"], stale=stale))
+                        f"history-must-raise:{op['op']}:{s['why']}:{s['rk']}", op=op["op"], why=s["why"], rk=s["rk"], stale=stale,
+                        site_path=s["path"], bound=got, note=note))
                 return fails
             classes.add("history:refresh-raised")
             prev_m, prev_raised = m, True
@@ -520,7 +536,8 @@ def _history(case, db, m0, classes, fail):
                     "history-wrong-target",
                     f"{where}: {s['rk']} at {s['layer']}/{'/'.join(map(str, s['path']))} (ref={_site_ref(cur, s)}) must name "
                     f"uid {s['allowed']} but is bound to uid:{got} {note}" + (" (object no longer in the database)" if stale else ""),
-                    f"history-wrong-target:{op['op']}:{s['rk']}", op=op["op"], rk=s["rk"], stale=stale))
+                    f"history-wrong-target:{op['op']}:{s['rk']}", op=op["op"], rk=s["rk"], stale=stale,
+                    site_path=s["path"], bound=got, note=note))
         if fails:
             return fails
         prev_m, prev_raised = m, False
